@@ -776,25 +776,26 @@ theorem zonedPre_good {L1 L2 bmin : Rat} {tr : Bool} {a b : Int} (hd : 0 < bmin)
 theorem zPath_head (len1 len2 cnt : Nat) : (0, 0) ∈ zPath len1 len2 (cnt + 1) 0 0 0 := by
   unfold zPath; simp
 
+/-- The main loop of `bi_rectangle_zoned_nested`: one `zoned_rectangle_domain` per visited `(j, k)`. -/
+def zParts (R : Rat → Rat) (L1 L2 bmin bmax1 bmax2 : Rat) (tr : Bool) : Py (List (List Field)) :=
+  (zPath (pyRange (nLow R L1 bmax1) (nHigh R L1 bmin + 1)).length (pyRange (nLow R L2 bmax2) (nHigh R L2 bmin + 1)).length
+      ((pyRange (nLow R L1 bmax1) (nHigh R L1 bmin + 1)).length + (pyRange (nLow R L2 bmax2) (nHigh R L2 bmin + 1)).length - 1)
+      0 0 0).mapM (fun (jk : Nat × Nat) =>
+    match (pyRange (nLow R L1 bmax1) (nHigh R L1 bmin + 1))[jk.1]?,
+          (pyRange (nLow R L2 bmax2) (nHigh R L2 bmin + 1))[jk.2]? with
+    | some a, some b => zonedRectangleDomain R L1 L2 a b tr
+    | _, _ => .error .indexError)
+
 /-- `bi_rectangle_zoned_nested` after the long/short side selection. -/
 def zonedCore (R : Rat → Rat) (L1 L2 bmin bmax1 bmax2 : Rat) (tr : Bool) : Py (List (List Field)) :=
   if bmin = 0 ∨ bmax1 = 0 ∨ bmax2 = 0 then .error .zeroDiv else
-  let nMin1 := nLow R L1 bmax1
-  let nMax1 := nHigh R L1 bmin
-  let nMin2 := nLow R L2 bmax2
-  let nMax2 := nHigh R L2 bmin
-  let n1s := pyRange nMin1 (nMax1 + 1)
-  let n2s := pyRange nMin2 (nMax2 + 1)
-  let iters := n1s.length + n2s.length - 1
-  if iters = 0 then .ok [[]] else
-  if nMin1 - 1 = 0 ∨ nMin2 - 1 = 0 then .error .zeroDiv else
-  let pre := zonedPre R tr nMin1 nMin2 (spacingOf R L1 nMin1) (spacingOf R L2 nMin2)
-  match (zPath n1s.length n2s.length iters 0 0 0).mapM (fun (jk : Nat × Nat) =>
-      match n1s[jk.1]?, n2s[jk.2]? with
-      | some a, some b => zonedRectangleDomain R L1 L2 a b tr
-      | _, _ => .error .indexError) with
+  if (pyRange (nLow R L1 bmax1) (nHigh R L1 bmin + 1)).length
+      + (pyRange (nLow R L2 bmax2) (nHigh R L2 bmin + 1)).length - 1 = 0 then .ok [[]] else
+  if nLow R L1 bmax1 - 1 = 0 ∨ nLow R L2 bmax2 - 1 = 0 then .error .zeroDiv else
+  match zParts R L1 L2 bmin bmax1 bmax2 tr with
   | .error e => .error e
-  | .ok parts => .ok [pre ++ parts.flatten]
+  | .ok parts => .ok [zonedPre R tr (nLow R L1 bmax1) (nLow R L2 bmax2) (spacingOf R L1 (nLow R L1 bmax1))
+                        (spacingOf R L2 (nLow R L2 bmax2)) ++ parts.flatten]
 
 theorem biRectangleZonedNested_eq_core (R : Rat → Rat) (Lx Ly bmin bmaxx bmaxy : Rat) :
     biRectangleZonedNested R Lx Ly bmin bmaxx bmaxy =
@@ -809,7 +810,6 @@ theorem zonedCore_good {L1 L2 bmin bmax1 bmax2 : Rat} {tr : Bool} (hb : 0 < bmin
   have t1 := two_le_nLow hL1 hb1
   have t2 := two_le_nLow hL2 hb2
   unfold zonedCore at h
-  simp only [] at h
   rw [if_neg (by intro h; rcases h with h | h | h <;> linarith)] at h
   split at h
   · simp only [Except.ok.injEq] at h
@@ -826,6 +826,7 @@ theorem zonedCore_good {L1 L2 bmin bmax1 bmax2 : Rat} {tr : Bool} (hb : 0 < bmin
   rename_i parts hparts
   simp only [Except.ok.injEq] at h
   subst h
+  unfold zParts at hparts
   obtain ⟨m1, m2⟩ := mapM_ok_spec _ _ _ hparts
   -- what a successful element of the path gives
   have elem : ∀ (jk : Nat × Nat) (part : List Field),
@@ -914,5 +915,462 @@ theorem outer_sorted {L1 L2 bmin bmax1 : Rat} {tr : Bool} (lo hi : Int) (hlo : 0
   rw [mem_pyRange] at ha hb
   simp only [Function.comp, biList_getLast _ hne, Option.getD_some]
   exact Nat.mul_le_mul_left _ (by omega)
+
+
+/-! ### which inputs raise -/
+/-- `zoned_rectangle` does not raise when the interior counts fit. -/
+theorem zonedRectangle_ok {nx ny nix nit : Int} (sx sy : Rat) (h1 : 0 ≤ nix) (h2 : 0 ≤ nit)
+    (hx : nix ≤ nx - 2) (hy : nit ≤ ny - 2) :
+    ∃ z, zonedRectangle id nx ny sx sy nix nit = .ok z := by
+  unfold zonedRectangle
+  rw [if_neg (by omega), if_neg (by omega), if_neg (by omega)]
+  exact ⟨_, rfl⟩
+
+/-- the comparison `ratio_1 > ratio` of the zoned loop, in integers -/
+theorem ratio_gt_iff {n1 n2 ni1 ni2 : Int} {b1 b2 : Rat} (hb1 : 0 < b1) (hb2 : 0 < b2)
+    (hn1 : 2 ≤ n1) (hn2 : 2 ≤ n2) (hi1 : 0 ≤ ni1) (hi2 : 0 ≤ ni2) :
+    ((iq (n1 - 1) * b1 / iq (ni1 + 1)) / (iq (n2 - 1) * b2 / iq (ni2 + 2)) > b1 / b2) ↔
+      (ni1 + 1) * (n2 - 1) < (n1 - 1) * (ni2 + 2) := by
+  simp only [iq]
+  have a1 : (0 : Rat) < ((n1 - 1 : Int) : Rat) := by exact_mod_cast (show (0 : Int) < n1 - 1 by omega)
+  have a2 : (0 : Rat) < ((n2 - 1 : Int) : Rat) := by exact_mod_cast (show (0 : Int) < n2 - 1 by omega)
+  have a3 : (0 : Rat) < ((ni1 + 1 : Int) : Rat) := by exact_mod_cast (show (0 : Int) < ni1 + 1 by omega)
+  have a4 : (0 : Rat) < ((ni2 + 2 : Int) : Rat) := by exact_mod_cast (show (0 : Int) < ni2 + 2 by omega)
+  have e : ((n1 - 1 : Int) : Rat) * b1 / ((ni1 + 1 : Int) : Rat) / (((n2 - 1 : Int) : Rat) * b2 / ((ni2 + 2 : Int) : Rat))
+      = (b1 / b2) * ((((n1 - 1) * (ni2 + 2) : Int) : Rat) / (((ni1 + 1) * (n2 - 1) : Int) : Rat)) := by
+    push_cast; field_simp
+  rw [e, gt_iff_lt]
+  have hr : 0 < b1 / b2 := div_pos hb1 hb2
+  have hden : (0 : Rat) < (((ni1 + 1) * (n2 - 1) : Int) : Rat) := by
+    rw [Int.cast_mul]; exact mul_pos a3 a2
+  constructor
+  · intro h
+    have : 1 < (((n1 - 1) * (ni2 + 2) : Int) : Rat) / (((ni1 + 1) * (n2 - 1) : Int) : Rat) := by
+      by_contra hc
+      have := mul_le_mul_of_nonneg_left (not_lt.mp hc) (le_of_lt hr)
+      linarith
+    rw [one_lt_div hden] at this
+    exact_mod_cast this
+  · intro h
+    have h' : (((ni1 + 1) * (n2 - 1) : Int) : Rat) < (((n1 - 1) * (ni2 + 2) : Int) : Rat) := by exact_mod_cast h
+    have := (one_lt_div hden).mpr h'
+    nlinarith
+
+theorem zonedLoop_ok {n1 n2 : Int} {b1 b2 : Rat} (tr : Bool) (hb1 : 0 < b1) (hb2 : 0 < b2)
+    (hn1 : 3 ≤ n1) (hn2 : 3 ≤ n2) :
+    ∀ (fuel : Nat) (ni1 ni2 : Int), 1 ≤ ni1 → 1 ≤ ni2 → ni1 ≤ n1 - 2 → ni2 ≤ n2 - 2 →
+      (n1 - 2 - ni1) + (n2 - 2 - ni2) < (fuel : Int) →
+      ∃ rest, zonedLoop id n1 n2 b1 b2 tr fuel ni1 ni2 = .ok rest := by
+  intro fuel
+  induction fuel with
+  | zero => intro ni1 ni2 _ _ _ _ h; omega
+  | succ k ih =>
+    intro ni1 ni2 h1 h2 h3 h4 hf
+    simp only [zonedLoop, id_eq]
+    split
+    · rename_i hc
+      have p1 : (0 : Rat) < iq (n1 - 1) * b1 := by
+        simp only [iq]; exact mul_pos (by exact_mod_cast (show (0 : Int) < n1 - 1 by omega)) hb1
+      have p2 : (0 : Rat) < iq (n2 - 1) * b2 := by
+        simp only [iq]; exact mul_pos (by exact_mod_cast (show (0 : Int) < n2 - 1 by omega)) hb2
+      have p4 : (0 : Rat) < iq (ni2 + 2) := by simp only [iq]; exact_mod_cast (show (0 : Int) < ni2 + 2 by omega)
+      rw [if_neg (ne_of_gt hb2), if_neg (by omega), if_neg (ne_of_gt (div_pos p2 p4))]
+      have key := ratio_gt_iff (n1 := n1) (n2 := n2) (ni1 := ni1) (ni2 := ni2) hb1 hb2 (by omega) (by omega) (by omega) (by omega)
+      by_cases hgt : (iq (n1 - 1) * b1 / iq (ni1 + 1)) / (iq (n2 - 1) * b2 / iq (ni2 + 2)) > b1 / b2
+      · have hint := key.mp hgt
+        -- then n_i1 can still grow
+        have hlt : ni1 < n1 - 2 := by
+          by_contra hc2
+          have e : ni1 = n1 - 2 := by omega
+          have : ni2 < n2 - 2 := by omega
+          subst e
+          have : (n1 - 2 + 1) * (n2 - 1) ≥ (n1 - 1) * (ni2 + 2) := by nlinarith
+          omega
+        simp only [hgt, if_true]
+        obtain ⟨z, hz⟩ := zonedRectangle_ok (nx := n1) (ny := n2) b1 b2 (show 0 ≤ ni1 + 1 by omega) (show 0 ≤ ni2 by omega) (by omega) (by omega)
+        obtain ⟨rest, hrest⟩ := ih (ni1 + 1) ni2 (by omega) h2 (by omega) h4 (by omega)
+        rw [hz, hrest]
+        exact ⟨_, rfl⟩
+      · have hint : ¬ ((ni1 + 1) * (n2 - 1) < (n1 - 1) * (ni2 + 2)) := fun h => hgt (key.mpr h)
+        have hlt : ni2 < n2 - 2 := by
+          by_contra hc2
+          have e : ni2 = n2 - 2 := by omega
+          have : ni1 < n1 - 2 := by omega
+          subst e
+          apply hint
+          nlinarith
+        simp only [hgt, if_false]
+        obtain ⟨z, hz⟩ := zonedRectangle_ok (nx := n1) (ny := n2) b1 b2 (show 0 ≤ ni1 by omega) (show 0 ≤ ni2 + 1 by omega) (by omega) (by omega)
+        obtain ⟨rest, hrest⟩ := ih ni1 (ni2 + 1) h1 (by omega) h3 (by omega) (by omega)
+        rw [hz, hrest]
+        exact ⟨_, rfl⟩
+    · exact ⟨_, rfl⟩
+
+theorem zonedRectangleDomain_ok {L1 L2 : Rat} (tr : Bool) (hL2 : 0 < L2) (hL : L2 ≤ L1) {a b : Int} (ha : 3 ≤ a) (hb : 3 ≤ b) :
+    ∃ part, zonedRectangleDomain id L1 L2 a b tr = .ok part := by
+  have hge : L1 ≥ L2 := hL
+  have hL1 : 0 < L1 := lt_of_lt_of_le hL2 hL
+  have p1 : 0 < spacingOf id L1 a := by
+    simp only [spacingOf, iq, id_eq]
+    exact div_pos hL1 (by exact_mod_cast (show (0 : Int) < a - 1 by omega))
+  have p2 : 0 < spacingOf id L2 b := by
+    simp only [spacingOf, iq, id_eq]
+    exact div_pos hL2 (by exact_mod_cast (show (0 : Int) < b - 1 by omega))
+  unfold zonedRectangleDomain
+  simp only [hge, if_true]
+  rw [if_neg (by omega)]
+  obtain ⟨z, hz⟩ := zonedRectangle_ok (nx := a) (ny := b) (spacingOf id L1 a) (spacingOf id L2 b)
+    (show (0 : Int) ≤ 1 by omega) (show (0 : Int) ≤ 1 by omega) (by omega) (by omega)
+  obtain ⟨rest, hrest⟩ := zonedLoop_ok tr p1 p2 ha hb (a.toNat + b.toNat) 1 1 (le_refl _) (le_refl _) (by omega) (by omega)
+    (by push_cast; omega)
+  rw [hz, hrest]
+  exact ⟨_, rfl⟩
+
+/-- fewer than three rows in one direction: `zoned_rectangle` raises ValueError -/
+theorem zonedRectangleDomain_valueError {L1 L2 : Rat} (tr : Bool) (hL : L2 ≤ L1) {a b : Int} (ha : 2 ≤ a) (hb : 2 ≤ b)
+    (h3 : a < 3 ∨ b < 3) : zonedRectangleDomain id L1 L2 a b tr = .error .valueError := by
+  have hge : L1 ≥ L2 := hL
+  unfold zonedRectangleDomain
+  simp only [hge, if_true]
+  rw [if_neg (by omega)]
+  have : zonedRectangle id a b (spacingOf id L1 a) (spacingOf id L2 b) 1 1 = .error .valueError := by
+    unfold zonedRectangle
+    by_cases c : (1 : Int) > a - 2
+    · rw [if_pos c]
+    · rw [if_neg c, if_pos (by omega)]
+  rw [this]
+
+theorem mapM_all_ok {α β : Type} (f : α → Py β) (l : List α) (h : ∀ x ∈ l, ∃ y, f x = .ok y) :
+    ∃ r, l.mapM f = .ok r := by
+  induction l with
+  | nil => exact ⟨[], rfl⟩
+  | cons a l ih =>
+    obtain ⟨y, hy⟩ := h a (by simp)
+    obtain ⟨r, hr⟩ := ih (fun x hx => h x (by simp [hx]))
+    refine ⟨y :: r, ?_⟩
+    rw [List.mapM_cons, hy, hr]; rfl
+
+theorem mapM_head_error {α β : Type} (f : α → Py β) (a : α) (l : List α) (e : PyErr) (h : f a = .error e) :
+    (a :: l).mapM f = .error e := by
+  rw [List.mapM_cons, h]; rfl
+
+theorem zPath_bounds (len1 len2 : Nat) :
+    ∀ (cnt i j k : Nat), (cnt = 0 ∨ (j < len1 ∧ k < len2 ∧ cnt + j + k + 1 ≤ len1 + len2)) →
+      ∀ p ∈ zPath len1 len2 cnt i j k, p.1 < len1 ∧ p.2 < len2 := by
+  intro cnt
+  induction cnt with
+  | zero => intro i j k _ p hp; simp [zPath] at hp
+  | succ c ih =>
+    intro i j k h p hp
+    rcases h with h | ⟨hj, hk, hc⟩
+    · omega
+    unfold zPath at hp
+    rw [List.mem_cons] at hp
+    rcases hp with rfl | hp
+    · exact ⟨hj, hk⟩
+    · split at hp
+      · split at hp
+        · exact ih _ _ _ (Or.inr ⟨by omega, hk, by omega⟩) p hp
+        · exact ih _ _ _ (by omega) p hp
+      · split at hp
+        · exact ih _ _ _ (Or.inr ⟨hj, by omega, by omega⟩) p hp
+        · exact ih _ _ _ (by omega) p hp
+
+theorem length_pyRange (lo hi : Int) : (pyRange lo hi).length = (hi - lo).toNat := by simp [pyRange]
+
+theorem pyRange_getElem? {lo hi : Int} {j : Nat} {a : Int} (h : (pyRange lo hi)[j]? = some a) : lo ≤ a ∧ a < hi := by
+  have := List.mem_of_getElem? h
+  rwa [mem_pyRange] at this
+
+/-- Exactly which positive inputs make `bi_rectangle_zoned_nested` raise:
+    * at most one admissible count in total: no loop pass, result `[[]]`;
+    * one of the two count ranges empty (and the other with ≥ 2 counts): IndexError;
+    * both non-empty but a side admits fewer than three rows at the maximum spacing: ValueError;
+    * otherwise it returns a list of candidates. -/
+theorem zonedCore_cases {L1 L2 bmin bmax1 bmax2 : Rat} (tr : Bool) (hb : 0 < bmin) (hb1 : 0 < bmax1) (hb2 : 0 < bmax2)
+    (hL2 : 0 < L2) (hL : L2 ≤ L1) :
+    let len1 := (pyRange (nLow id L1 bmax1) (nHigh id L1 bmin + 1)).length
+    let len2 := (pyRange (nLow id L2 bmax2) (nHigh id L2 bmin + 1)).length
+    (len1 + len2 ≤ 1 → zonedCore id L1 L2 bmin bmax1 bmax2 tr = .ok [[]]) ∧
+    (2 ≤ len1 + len2 → (len1 = 0 ∨ len2 = 0) → zonedCore id L1 L2 bmin bmax1 bmax2 tr = .error .indexError) ∧
+    (1 ≤ len1 → 1 ≤ len2 → (nLow id L1 bmax1 < 3 ∨ nLow id L2 bmax2 < 3) →
+        zonedCore id L1 L2 bmin bmax1 bmax2 tr = .error .valueError) ∧
+    (1 ≤ len1 → 1 ≤ len2 → 3 ≤ nLow id L1 bmax1 → 3 ≤ nLow id L2 bmax2 →
+        ∃ ls, zonedCore id L1 L2 bmin bmax1 bmax2 tr = .ok ls) := by
+  intro len1 len2
+  have hL1 : 0 < L1 := lt_of_lt_of_le hL2 hL
+  have t1 := two_le_nLow hL1 hb1
+  have t2 := two_le_nLow hL2 hb2
+  have pre : ¬ (bmin = 0 ∨ bmax1 = 0 ∨ bmax2 = 0) := by intro h; rcases h with h | h | h <;> linarith
+  have pre2 : ¬ (nLow id L1 bmax1 - 1 = 0 ∨ nLow id L2 bmax2 - 1 = 0) := by omega
+  refine ⟨?_, ?_, ?_, ?_⟩
+  · intro h
+    unfold zonedCore
+    rw [if_neg pre, if_pos (by show len1 + len2 - 1 = 0; omega)]
+  · intro h2 h0
+    have hz : zParts id L1 L2 bmin bmax1 bmax2 tr = .error .indexError := by
+      unfold zParts
+      obtain ⟨c, hc⟩ : ∃ c, len1 + len2 - 1 = c + 1 := ⟨len1 + len2 - 2, by omega⟩
+      show (zPath len1 len2 (len1 + len2 - 1) 0 0 0).mapM _ = _
+      rw [hc]
+      unfold zPath
+      apply mapM_head_error
+      rcases h0 with h0 | h0
+      · have : (pyRange (nLow id L1 bmax1) (nHigh id L1 bmin + 1))[(0, 0).1]? = none := by
+          rw [List.getElem?_eq_none_iff]; show len1 ≤ 0; omega
+        simp only [this]
+      · have : (pyRange (nLow id L2 bmax2) (nHigh id L2 bmin + 1))[(0, 0).2]? = none := by
+          rw [List.getElem?_eq_none_iff]; show len2 ≤ 0; omega
+        simp only [this]
+        split <;> simp_all
+    unfold zonedCore
+    rw [if_neg pre, if_neg (by show ¬ (len1 + len2 - 1 = 0); omega), if_neg pre2, hz]
+  · intro h1 h2 h3
+    have l1 : nLow id L1 bmax1 < nHigh id L1 bmin + 1 := by
+      have := length_pyRange (nLow id L1 bmax1) (nHigh id L1 bmin + 1); change len1 = _ at this; omega
+    have l2 : nLow id L2 bmax2 < nHigh id L2 bmin + 1 := by
+      have := length_pyRange (nLow id L2 bmax2) (nHigh id L2 bmin + 1); change len2 = _ at this; omega
+    have hz : zParts id L1 L2 bmin bmax1 bmax2 tr = .error .valueError := by
+      unfold zParts
+      obtain ⟨c, hc⟩ : ∃ c, len1 + len2 - 1 = c + 1 := ⟨len1 + len2 - 2, by omega⟩
+      show (zPath len1 len2 (len1 + len2 - 1) 0 0 0).mapM _ = _
+      rw [hc]
+      unfold zPath
+      apply mapM_head_error
+      simp only [pyRange_cons l1, pyRange_cons l2, List.getElem?_cons_zero]
+      exact zonedRectangleDomain_valueError tr hL t1 t2 h3
+    unfold zonedCore
+    rw [if_neg pre, if_neg (by show ¬ (len1 + len2 - 1 = 0); omega), if_neg pre2, hz]
+  · intro h1 h2 h3 h4
+    have hb := zPath_bounds len1 len2 (len1 + len2 - 1) 0 0 0 (Or.inr ⟨by omega, by omega, by omega⟩)
+    have hz : ∃ parts, zParts id L1 L2 bmin bmax1 bmax2 tr = .ok parts := by
+      unfold zParts
+      apply mapM_all_ok
+      intro jk hjk
+      obtain ⟨q1, q2⟩ := hb jk hjk
+      obtain ⟨a, ha⟩ : ∃ a, (pyRange (nLow id L1 bmax1) (nHigh id L1 bmin + 1))[jk.1]? = some a :=
+        ⟨_, List.getElem?_eq_getElem q1⟩
+      obtain ⟨b, hb'⟩ : ∃ b, (pyRange (nLow id L2 bmax2) (nHigh id L2 bmin + 1))[jk.2]? = some b :=
+        ⟨_, List.getElem?_eq_getElem q2⟩
+      simp only [ha, hb']
+      exact zonedRectangleDomain_ok tr hL2 hL (by have := pyRange_getElem? ha; omega) (by have := pyRange_getElem? hb'; omega)
+    obtain ⟨parts, hparts⟩ := hz
+    unfold zonedCore
+    rw [if_neg pre, if_neg (by show ¬ (len1 + len2 - 1 = 0); omega), if_neg pre2, hparts]
+    exact ⟨_, rfl⟩
+
+
+/-! ### rounding-robustness of `rectangular` -/
+
+theorem nearP_trIf {δ : Rat} (tr : Bool) {fR f : Field} (h : List.Forall₂ (NearP δ) fR f) :
+    List.Forall₂ (NearP δ) (trIf tr fR) (trIf tr f) := by
+  cases tr
+  · exact h
+  · exact nearP_transpose h
+
+theorem spacingOf_near {u : Rat} {R : Rat → Rat} (hR : RelErr u R) (L : Rat) (n : Int) :
+    Near u (spacingOf R L n) (spacingOf id L n) := hR _
+
+/-- closeness after the coordinate roundings: spacing rounded once, product and sum rounded -/
+def delta (u : Rat) : Rat := bump u (bump u u)
+
+theorem rectLoop_near {u : Rat} {R : Rat → Rat} (hR : RelErr u R) (hu : 0 ≤ u) {L1 L2 : Rat} {tr : Bool} {nMin : Int}
+    (ns : List Int) (hdec : ∀ n ∈ ns, (rectN2Arg R L1 L2 n).floor = (rectN2Arg id L1 L2 n).floor)
+    (n2old : Int) (first : Bool) :
+    List.Forall₂ (List.Forall₂ (NearP (delta u)))
+      (rectLoop R L1 L2 tr nMin ns n2old first) (rectLoop id L1 L2 tr nMin ns n2old first) := by
+  induction ns generalizing n2old first with
+  | nil => simp only [rectLoop]; exact List.Forall₂.nil
+  | cons n rest ih =>
+    have hs := spacingOf_near hR L1 n
+    have rn : ∀ a b : Int, List.Forall₂ (NearP (delta u))
+        (trIf tr (rectangle R a b (spacingOf R L1 n) (spacingOf R L1 n)))
+        (trIf tr (rectangle id a b (spacingOf id L1 n) (spacingOf id L1 n))) :=
+      fun a b => nearP_trIf tr (rectangle_near hR hu a b hs hs)
+    simp only [rectLoop]
+    rw [hdec n (by simp)]
+    refine forall₂_append (forall₂_append ?_ ?_) (ih (fun m hm => hdec m (by simp [hm])) _ _)
+    · cases first
+      · simp only [Bool.false_eq_true, if_false]; exact List.Forall₂.nil
+      · simp only [if_true, rectPre]
+        exact forall₂_append (forall₂_map_same _ _ _ (fun i _ => rn i 1)) (forall₂_map_same _ _ _ (fun j _ => rn nMin j))
+    · split
+      · exact List.Forall₂.nil
+      · exact List.Forall₂.cons (rn _ _) List.Forall₂.nil
+
+theorem rectangular_eqR (R : Rat → Rat) {Lx Ly bmin bmax : Rat} (hb : 0 < bmin) (hbm : 0 < bmax) (hLx : 0 < Lx) (hLy : 0 < Ly)
+    (h2 : 2 ≤ nLow R (long Lx Ly) bmax) :
+    rectangular R Lx Ly bmin bmax =
+      .ok (rectLoop R (long Lx Ly) (short Lx Ly) (trOf Lx Ly) (nLow R (long Lx Ly) bmax)
+            (pyRange (nLow R (long Lx Ly) bmax) (nHigh R (long Lx Ly) bmin + 1)) 1 true) := by
+  have hL := long_pos hLx hLy
+  unfold rectangular
+  simp only []
+  rw [if_neg (by intro h; rcases h with h | h <;> linarith), if_neg]
+  · rfl
+  · rintro ⟨_, h | h⟩
+    · rw [mem_pyRange] at h
+      change nLow R (long Lx Ly) bmax ≤ 1 ∧ _ at h
+      omega
+    · change long Lx Ly = 0 at h
+      linarith
+
+/-- `rectangular` computed with a rounding `R` that takes the same branches as exact arithmetic
+    returns the same list shape with every coordinate `delta u`-close. -/
+theorem rectangular_near {u : Rat} {R : Rat → Rat} (hR : RelErr u R) (hu : 0 ≤ u) {Lx Ly bmin bmax : Rat}
+    (hb : 0 < bmin) (hbm : 0 < bmax) (hLx : 0 < Lx) (hLy : 0 < Ly)
+    (h1 : nLow R (long Lx Ly) bmax = nLow id (long Lx Ly) bmax)
+    (h2 : nHigh R (long Lx Ly) bmin = nHigh id (long Lx Ly) bmin)
+    (h3 : ∀ n ∈ pyRange (nLow id (long Lx Ly) bmax) (nHigh id (long Lx Ly) bmin + 1),
+        (rectN2Arg R (long Lx Ly) (short Lx Ly) n).floor = (rectN2Arg id (long Lx Ly) (short Lx Ly) n).floor) :
+    ∃ fsR fs, rectangular R Lx Ly bmin bmax = .ok fsR ∧ rectangular id Lx Ly bmin bmax = .ok fs ∧
+      List.Forall₂ (List.Forall₂ (NearP (delta u))) fsR fs := by
+  have t2 := two_le_nLow (long_pos hLx hLy) hbm
+  refine ⟨_, _, rectangular_eqR R hb hbm hLx hLy (by rw [h1]; exact t2), rectangular_eq hb hbm hLx hLy, ?_⟩
+  rw [h1, h2]
+  exact rectLoop_near hR hu _ h3 _ _
+
+
+/-- A perturbation smaller than the distance of `y` to every integer does not change `floor`. -/
+theorem floor_eq_of_clear {x y δ : Rat} (h : |x - y| ≤ δ) (hc : ∀ k : Int, δ < |y - (k : Rat)|) : x.floor = y.floor := by
+  have h1 := Rat.floor_le y
+  have h2 := Rat.lt_floor_add_one y
+  have c1 := hc y.floor
+  have c2 := hc (y.floor + 1)
+  rw [abs_of_nonneg (by linarith)] at c1
+  rw [abs_of_neg (by linarith)] at c2
+  obtain ⟨a, b⟩ := abs_le.mp h
+  apply le_antisymm
+  · have : x.floor < y.floor + 1 := by rw [Rat.floor_lt_iff]; linarith
+    omega
+  · rw [Rat.le_floor_iff]; linarith
+
+theorem ceil_eq_of_clear {x y δ : Rat} (h : |x - y| ≤ δ) (hc : ∀ k : Int, δ < |y - (k : Rat)|) : x.ceil = y.ceil := by
+  have h1 : y ≤ (y.ceil : Rat) := Rat.le_ceil
+  have h2 : ((y.ceil - 1 : Int) : Rat) < y := by rw [← Rat.lt_ceil_iff]; omega
+  have c1 := hc y.ceil
+  have c2 := hc (y.ceil - 1)
+  rw [abs_of_nonpos (by linarith)] at c1
+  rw [abs_of_pos (by linarith)] at c2
+  obtain ⟨a, b⟩ := abs_le.mp h
+  push_cast at h2 c2
+  apply le_antisymm
+  · rw [Rat.ceil_le_iff]; linarith
+  · have : y.ceil - 1 < x.ceil := by rw [Rat.lt_ceil_iff]; push_cast; linarith
+    omega
+
+/-- error of `R (R q + 1)` (the arguments of `ceil(L/b_max + 1)`, `floor(L/b_min + 1)`) -/
+theorem arg1_err {u : Rat} {R : Rat → Rat} (hR : RelErr u R) (hu : 0 ≤ u) (hu1 : u ≤ 1) {q : Rat} (hq : 0 ≤ q) :
+    |R (R q + 1) - (q + 1)| ≤ 3 * u * (q + 1) := by
+  have e1 := hR q
+  rw [abs_of_nonneg hq] at e1
+  have e2 := hR (R q + 1)
+  obtain ⟨a, b⟩ := abs_le.mp e1
+  have hs : 0 ≤ R q + 1 := by nlinarith
+  rw [abs_of_nonneg hs] at e2
+  have tri : |R (R q + 1) - (q + 1)| ≤ |R (R q + 1) - (R q + 1)| + |R q - q| := by
+    have := abs_add_le (R (R q + 1) - (R q + 1)) (R q - q)
+    have e : R (R q + 1) - (R q + 1) + (R q - q) = R (R q + 1) - (q + 1) := by ring
+    rwa [e] at this
+  have : u * (R q + 1) ≤ u * ((1 + u) * q + 1) := mul_le_mul_of_nonneg_left (by linarith) hu
+  nlinarith
+
+theorem nHigh_eq_of_clear {u : Rat} {R : Rat → Rat} (hR : RelErr u R) (hu : 0 ≤ u) (hu1 : u ≤ 1) {L b : Rat}
+    (hq : 0 ≤ L / b) (hc : ∀ k : Int, 3 * u * (L / b + 1) < |L / b + 1 - (k : Rat)|) :
+    nHigh R L b = nHigh id L b := by
+  simp only [nHigh, id_eq]
+  exact floor_eq_of_clear (arg1_err hR hu hu1 hq) hc
+
+theorem nLow_eq_of_clear {u : Rat} {R : Rat → Rat} (hR : RelErr u R) (hu : 0 ≤ u) (hu1 : u ≤ 1) {L b : Rat}
+    (hq : 0 ≤ L / b) (hc : ∀ k : Int, 3 * u * (L / b + 1) < |L / b + 1 - (k : Rat)|) :
+    nLow R L b = nLow id L b := by
+  simp only [nLow, id_eq]
+  exact ceil_eq_of_clear (arg1_err hR hu hu1 hq) hc
+
+/-- error of the argument of `n_2 = floor(length_2 / b + 1)` with `b = R (length_1 / (n - 1))` -/
+theorem rectN2Arg_err {u : Rat} {R : Rat → Rat} (hR : RelErr u R) (hu : 0 ≤ u) (hu1 : u ≤ 1 / 8) {L1 L2 : Rat}
+    (hL1 : 0 < L1) (hL2 : 0 ≤ L2) {n : Int} (hn : 2 ≤ n) :
+    |rectN2Arg R L1 L2 n - rectN2Arg id L1 L2 n| ≤ 7 * u * rectN2Arg id L1 L2 n := by
+  have hbpos : 0 < spacingOf id L1 n := by
+    simp only [spacingOf, iq, id_eq]
+    exact div_pos hL1 (by exact_mod_cast (show (0 : Int) < n - 1 by omega))
+  have hq : 0 ≤ L2 / spacingOf id L1 n := div_nonneg hL2 (le_of_lt hbpos)
+  have n1 : Near (2 * u) (L2 / spacingOf R L1 n) (L2 / spacingOf id L1 n) :=
+    (spacingOf_near hR L1 n).div_left L2 hbpos hu (by linarith)
+  have n2 : Near (bump u (2 * u)) (R (L2 / spacingOf R L1 n)) (L2 / spacingOf id L1 n) := n1.round hR hu
+  set q := L2 / spacingOf id L1 n with hqdef
+  set t := R (L2 / spacingOf R L1 n) with htdef
+  have e1 : |t - q| ≤ bump u (2 * u) * q := by have := n2; unfold Near at this; rwa [abs_of_nonneg hq] at this
+  have hb4 : bump u (2 * u) ≤ 4 * u := by unfold bump; nlinarith
+  have e1' : |t - q| ≤ 4 * u * q := le_trans e1 (mul_le_mul_of_nonneg_right hb4 hq)
+  obtain ⟨a, b⟩ := abs_le.mp e1'
+  have h4 : 4 * u * q ≤ 1 / 2 * q := mul_le_mul_of_nonneg_right (by linarith) hq
+  have ht : 0 ≤ t + 1 := by linarith
+  have e2 := hR (t + 1)
+  rw [abs_of_nonneg ht] at e2
+  show |R (t + 1) - (id (id q + 1))| ≤ 7 * u * (id (id q + 1))
+  simp only [id_eq]
+  have tri : |R (t + 1) - (q + 1)| ≤ |R (t + 1) - (t + 1)| + |t - q| := by
+    have := abs_add_le (R (t + 1) - (t + 1)) (t - q)
+    have e : R (t + 1) - (t + 1) + (t - q) = R (t + 1) - (q + 1) := by ring
+    rwa [e] at this
+  have h5 : u * (t + 1) ≤ u * (3 / 2 * q + 1) := mul_le_mul_of_nonneg_left (by linarith) hu
+  nlinarith
+
+
+theorem delta_bounds {u : Rat} (hu : 0 ≤ u) (hu1 : u ≤ 1 / 8) : 0 ≤ delta u ∧ delta u ≤ 4 * u := by
+  unfold delta bump
+  constructor
+  · positivity
+  · nlinarith [mul_nonneg hu hu, mul_nonneg (mul_nonneg hu hu) hu]
+
+theorem forall₂_mem_left' {α β : Type} {P : α → β → Prop} {l1 : List α} {l2 : List β} (h : List.Forall₂ P l1 l2) :
+    ∀ a ∈ l1, ∃ b ∈ l2, P a b := forall₂_mem_left h
+
+/-- **Rounding-robust version of the rectangle theorems.**  For any rounding `R` of relative error
+    `u ≤ 1/8` and any positive input none of whose `floor`/`ceil` arguments lies within the stated
+    multiple of `u` of an integer, `rectangular` computed with `R` does not raise, has the list
+    shape of the exact instance, every coordinate is within relative `delta u ≤ 4u` of the exact
+    one, hence every candidate is on the land enlarged by `1 + delta u` and its boreholes are
+    separated by `b_min − 2·delta u·max(Lx, Ly)`. -/
+theorem rectangular_robust {u : Rat} {R : Rat → Rat} (hR : RelErr u R) (hu : 0 ≤ u) (hu1 : u ≤ 1 / 8)
+    {Lx Ly bmin bmax : Rat} (hb : 0 < bmin) (hbm : 0 < bmax) (hLx : 0 < Lx) (hLy : 0 < Ly)
+    (c1 : ∀ k : Int, 3 * u * (long Lx Ly / bmax + 1) < |long Lx Ly / bmax + 1 - (k : Rat)|)
+    (c2 : ∀ k : Int, 3 * u * (long Lx Ly / bmin + 1) < |long Lx Ly / bmin + 1 - (k : Rat)|)
+    (c3 : ∀ n ∈ pyRange (nLow id (long Lx Ly) bmax) (nHigh id (long Lx Ly) bmin + 1), ∀ k : Int,
+        7 * u * rectN2Arg id (long Lx Ly) (short Lx Ly) n < |rectN2Arg id (long Lx Ly) (short Lx Ly) n - (k : Rat)|) :
+    ∃ fsR fs, rectangular R Lx Ly bmin bmax = .ok fsR ∧ rectangular id Lx Ly bmin bmax = .ok fs ∧
+      List.Forall₂ (List.Forall₂ (NearP (delta u))) fsR fs ∧
+      ∀ f ∈ fsR, InLand ((1 + delta u) * Lx) ((1 + delta u) * Ly) f ∧ Sep (bmin - 2 * delta u * max Lx Ly) f := by
+  have hL1 := long_pos hLx hLy
+  have hL2 := short_pos hLx hLy
+  have t2 := two_le_nLow hL1 hbm
+  obtain ⟨d0, d4⟩ := delta_bounds hu hu1
+  have h1 := nLow_eq_of_clear hR hu (by linarith) (le_of_lt (div_pos hL1 hbm)) c1
+  have h2 := nHigh_eq_of_clear hR hu (by linarith) (le_of_lt (div_pos hL1 hb)) c2
+  have h3 : ∀ n ∈ pyRange (nLow id (long Lx Ly) bmax) (nHigh id (long Lx Ly) bmin + 1),
+      (rectN2Arg R (long Lx Ly) (short Lx Ly) n).floor = (rectN2Arg id (long Lx Ly) (short Lx Ly) n).floor := by
+    intro n hn
+    have hn' := hn
+    rw [mem_pyRange] at hn'
+    exact floor_eq_of_clear (rectN2Arg_err hR hu hu1 hL1 (le_of_lt hL2) (by omega)) (c3 n hn)
+  obtain ⟨fsR, fs, e1, e2, hnear⟩ := rectangular_near hR hu hb hbm hLx hLy h1 h2 h3
+  refine ⟨fsR, fs, e1, e2, hnear, ?_⟩
+  obtain ⟨fs', e2', hgood⟩ := rectangular_good hb hbm hLx hLy
+  have : fs' = fs := by rw [e2] at e2'; cases e2'; rfl
+  subst this
+  intro f hf
+  obtain ⟨g, hg, hfg⟩ := forall₂_mem_left hnear f hf
+  exact approx_of_near d0 (by linarith) hfg (hgood g hg).1 (hgood g hg).2
+
+/-- a number strictly between `m + δ` and `m + 1 − δ` is farther than `δ` from every integer -/
+theorem clear_of_between {y δ : Rat} (hδ : 0 ≤ δ) (m : Int) (h1 : (m : Rat) + δ < y) (h2 : y + δ < (m : Rat) + 1) :
+    ∀ k : Int, δ < |y - (k : Rat)| := by
+  intro k
+  by_cases hk : k ≤ m
+  · have : (k : Rat) ≤ (m : Rat) := by exact_mod_cast hk
+    rw [abs_of_nonneg (by linarith)]; linarith
+  · have : (m : Rat) + 1 ≤ (k : Rat) := by exact_mod_cast (show m + 1 ≤ k by omega)
+    rw [abs_of_neg (by linarith)]; linarith
 
 end GHEVerif.Domains
